@@ -88,14 +88,32 @@ def p1_connect(ctx, flavours):
 
 
 def _err_variants(F, b):
-    """Error variants constructed in b"""
+    """Error variants constructed in b: (block where the error becomes a result, variant).  An error value built eagerly as an argument
+    (`.ok_or(Error::X)`) counts where it is wrapped into `Err(..)`, not where the argument is evaluated"""
     out = []
+    pv = F.prov(b)
+    reach = F.cfg(b).reach
+    wrapped = {}
+    for bi, bb in enumerate(b['blocks']):
+        if bb['cleanup'] or bi not in reach:
+            continue
+        for s in bb['stmts']:
+            if s['k'] == 'assign' and s['rv']['k'] == 'aggr' and s['rv']['ak'].endswith('Result::Err') and s['rv']['ops']:
+                tm = strip_payload(pv.of_operand(s['rv']['ops'][0]))
+                if isinstance(tm, tuple) and tm and tm[0] == 'aggr' and tm[1].startswith('adt:error::Error::'):
+                    wrapped.setdefault(tm[1].split('::')[-1], []).append(bi)
     for bi, bb in enumerate(b['blocks']):
         if bb['cleanup']:
             continue
         for s in bb['stmts']:
             if s['k'] == 'assign' and s['rv']['k'] == 'aggr' and s['rv']['ak'].startswith('adt:error::Error::'):
-                out.append((bi, s['rv']['ak'].split('::')[-1]))
+                v = s['rv']['ak'].split('::')[-1]
+                if v in wrapped:
+                    for wb in wrapped[v]:
+                        if (wb, v) not in out:
+                            out.append((wb, v))
+                else:
+                    out.append((bi, v))
     return out
 
 
@@ -439,7 +457,7 @@ def t1_try_connect(ctx, flavours):
                 if not cfg.edge_dominates(fe[0], fe[1], ccalls[0][0]):
                     why.append('connect is not confined to the "no edge yet" branch')
                 errs = _err_variants(F, b)
-                if [v for _, v in errs] != ['EdgeAlreadyExists']:
+                if {v for _, v in errs} != {'EdgeAlreadyExists'}:
                     why.append('error variants constructed: %s' % [v for _, v in errs])
                 for ebi, v in errs:
                     if not cfg.edge_dominates(te[0], te[1], ebi):
@@ -1011,17 +1029,20 @@ def _obs_eval(ctx, q, assign, depth=0):
             raise _Unknown('atom %s%s not in the table' % (key[0], sorted(key[1])))
         return assign[key]
 
-    def num(t):
+    def num(t, _d=0):
         """a number that is a sum of adjacency-list lengths of self: list of role sets, or None"""
         t = deep_unwrap(t)
         if isinstance(t, tuple) and t:
             if t[0] == 'f' and t[2] == '0' and isinstance(t[1], tuple) and t[1] and t[1][0] == 'binop':
                 t = t[1]
             if t[0] == 'binop' and t[1].startswith('Add'):
-                a_, c_ = num(t[2][0]), num(t[2][1])
+                a_, c_ = num(t[2][0], _d), num(t[2][1], _d)
                 return None if a_ is None or c_ is None else a_ + c_
             if t[0] == 'call' and t[1] in F.bodies and is_len(t[1]) and term_mentions(t, lambda z: z == P1_):
                 return [roles_of(t[1])]
+            if t[0] == 'call' and t[1] in F.bodies and F.types[F.bodies[t[1]]['locals'][0]].get('s') == 'usize' and [strip_payload(x) for x in t[2]] == [P1_] and _d < 3:
+                # a degree function defined as a sum of lengths (the callee's self is our self)
+                return num(F.prov(F.bodies[t[1]]).of_local(0), _d + 1)
         return None
 
     def ev(t):
@@ -1079,7 +1100,17 @@ def _obs_eval(ctx, q, assign, depth=0):
         elif t['k'] in ('goto', 'drop', 'assert'):
             bi = t['target']
         elif t['k'] == 'switch':
-            v = ev(pv.of_operand(t['op']))
+            opt = strip_payload(pv.of_operand(t['op']))
+            if isinstance(opt, tuple) and opt and opt[0] == 'discr':
+                # match / matches! / if let on the Option returned by a finder
+                src = strip_payload(opt[1])
+                if isinstance(src, tuple) and src and src[0] == 'call' and src[1] in F.bodies and src[1].split('::')[-1].startswith('find') and \
+                        [strip_payload(x) for x in src[2]] == [P1_, P2_]:
+                    v = atom('FOUND', src[1])
+                else:
+                    raise _Unknown('branches on %s' % pretty(opt)[:60])
+            else:
+                v = ev(opt)
             tg = [x for val, x in t['targets'] if val == (1 if v else 0)]
             bi = tg[0] if tg else t['otherwise']
         else:
